@@ -1028,6 +1028,13 @@ class ManagedNoTypeid(Unit):
                       z3.And(z3.BoolVal(len(sets) <= 1), *[z3.And(z3.Not(w[3]), z3.BoolVal(isinstance(unbox_handle(ex, w[2]), PyTuple) and len(unbox_handle(ex, w[2]).items) == 4),
                                                                   box(ex, unbox_handle(ex, w[2]).items[0]) == NONE if isinstance(unbox_handle(ex, w[2]), PyTuple) and len(unbox_handle(ex, w[2]).items) == 4 else z3.BoolVal(False)) for w in sets]))
             c = [e_ for e_ in evs if e_[0] == 'create']
+            if len(c) == 1 and len(c[0][1]) == 3:
+                # the typeid used to create must HOST THE VALUE ITSELF: its registration has no callable (found so, or added just now) -- with a callable Server.create would
+                # construct a NEW object from the value instead of hosting it
+                tid = V.sval(c[0][1][1])
+                added = [w for w in sets]
+                ex.oblige(s, 'create: the typeid handed to Server.create is registered WITHOUT a callable (the value itself is hosted, not something constructed from it)',
+                          z3.Or(z3.And(self.present(tid), self.reg_callable(tid) == NONE), *[w[1] == tid for w in added]))
             if k in ('normal', 'return'):
                 ok = len(c) == 1 and len(c[0][1]) == 3
                 ex.oblige(s, 'exit: returns Server.create(None, <the typeid it settled on>, obj) for this very object, called exactly once',
